@@ -135,6 +135,11 @@ func Verif_C09_IpkScripts() {
 			}
 		}
 	}
+	// two events may be served by one script file: both slots must then carry it
+	if set[0] && set[1] && v.NondetBool("share.one.file") {
+		sc.Info.Scripts.PostInstall = sc.Info.Scripts.PreInstall
+		body[1] = body[0]
+	}
 	d, ok := verifBuild(sc)
 	v.Reach("C09.ipk.ran")
 	if !ok {
